@@ -437,6 +437,64 @@ example : (run (init 1 1) [.new 0 none (some 7), .release 0, .new 1 (some 0) (so
     some ([7], []) := by rfl
 example : (run (init 1 1) [.new 0 none (some 7), .new 1 none (some 7)]).isNone = true := by rfl
 
+/-! ### the callers' discipline: one `Release` per output recycles, never more -/
+
+theorem lookup_update_self : ∀ (l : List (Nat × Rec)) (h : Nat) (r r' : Rec), lookup l h = some r → lookup (update l h r') h = some r'
+  | [], _, _, _, hl => by simp [lookup] at hl
+  | p :: l, h, r, r', hl => by
+    rw [lookup_cons] at hl
+    by_cases e : p.1 = h
+    · simp only [update, List.map_cons, e, if_true]
+      rw [lookup_cons]; simp
+    · simp only [e, if_false] at hl
+      have ih := lookup_update_self l h r r' hl
+      simp only [update] at ih
+      simp only [update, List.map_cons, e, if_false]
+      rw [lookup_cons]; simp only [e, if_false]; exact ih
+
+theorem lookup_remove_self (l : List (Nat × Rec)) (h : Nat) : lookup (remove l h) h = none := by
+  unfold lookup remove
+  cases hf : (l.filter (fun p => p.1 ≠ h)).find? (fun p => p.1 = h) with
+  | none => rfl
+  | some p =>
+    have h1 := List.find?_some hf
+    have h2 := (List.mem_filter.mp (List.mem_of_find?_eq_some hf)).2
+    simp at h1 h2
+    exact absurd h1 h2
+
+/-- `k` further releases of a handed-out record whose count is `k` are all enabled; the last one recycles it -/
+theorem releases_recycle : ∀ (k : Nat) (s : St) (h : Nat) (r : Rec), lookup s.live h = some r → r.refCount = (k : Int) + 1 →
+    ∃ s', run s (List.replicate (k + 1) (.release h)) = some s' ∧ lookup s'.live h = none ∧ h ∈ s'.pool.map (·.1)
+  | 0, s, h, r, hl, hc => by
+    refine ⟨{ s with live := remove s.live h, pool := s.pool ++ [(h, cleared { r with refCount := 0 })],
+                     bufPool := s.bufPool ++ r.backbuf.toList }, ?_, lookup_remove_self _ _, by simp⟩
+    have h0 : r.refCount - 1 = 0 := by omega
+    simp [run, step, hl, h0]
+  | k + 1, s, h, r, hl, hc => by
+    have hpos : r.refCount - 1 > 0 := by omega
+    have hnn : ¬ (r.refCount - 1 < 0) := by omega
+    have hstep : step s (.release h) = some { s with live := update s.live h { r with refCount := r.refCount - 1 } } := by
+      have h1lt : 1 < r.refCount := by omega
+      simp [step, hl, hnn, h1lt]
+    obtain ⟨s', h1, h2, h3⟩ := releases_recycle k { s with live := update s.live h { r with refCount := r.refCount - 1 } } h
+      { r with refCount := r.refCount - 1 } (lookup_update_self s.live h r _ hl) (by simp; omega)
+    refine ⟨s', ?_, h2, h3⟩
+    rw [show List.replicate (k + 1 + 1) (Op.release h) = .release h :: List.replicate (k + 1) (.release h) from rfl]
+    simp only [run, hstep]
+    exact h1
+
+/-- **C12 (the processing worker's releases).** From any reachable state: after `NewRecord`, the `outputs` releases of a
+record that passes (one after each output has serialized it) are all enabled — none reaches the negative-count panic — and
+the last one recycles the record; a record that is dropped is released once and (with more than one output) simply never
+returns to the pool. -/
+theorem C12_one_release_per_output_recycles (nFields outputs : Nat) (hout : 0 < outputs) (ops : List Op) (s s1 : St)
+    (h : run (init nFields outputs) ops = some s) (hd : Nat) (src : Option Nat) (buf : Option Nat)
+    (hn : step s (.new hd src buf) = some s1) :
+    ∃ s2, run s1 (List.replicate outputs (.release hd)) = some s2 ∧ lookup s2.live hd = none ∧ hd ∈ s2.pool.map (·.1) := by
+  obtain ⟨r, hl, _, hc⟩ := C12_new_record_is_clean nFields outputs hout ops s s1 h hd src buf hn
+  obtain ⟨k, rfl⟩ : ∃ k, outputs = k + 1 := ⟨outputs - 1, by omega⟩
+  exact releases_recycle k s1 hd r hl (by rw [hc]; simp)
+
 /-! ### fact obligations (Tie B) -/
 
 /-- `Release`, statement by statement -/
@@ -450,5 +508,13 @@ theorem C12_fact_recycle : Facts.pool_recycle =
     Facts.pool_new_head = ["record := alloc.recordPool.Get().(*LogRecord)", "record._refCount += alloc.initialRefCount"] := by decide
 /-- the syslog parser assigns `Unescaped` for every record it returns, unconditionally -/
 theorem C12_fact_parser_assigns_unescaped : Facts.parse_unescaped_assignment = ["record.Unescaped = strings.IndexByte(remaining, '\\n') != -1"] := by decide
+
+/-- the callers of `Release`: the parser for a malformed line, the extraction stage and the processing worker for a dropped
+record (one release each), and the processing worker once per output for a record that passes -/
+theorem C12_fact_release_sites : Facts.pool_release_sites =
+    ["base/bsupport/logprocessingworker.go:onInput:worker.deallocator.Release",
+     "base/bsupport/logprocessingworker.go:onInput:worker.deallocator.Release",
+     "input/sysloginput/compositeparser.go:Parse:cp.deallocator.Release",
+     "input/syslogparser/syslogparser.go:onMalformed:parser.allocator.Release"] := by decide
 
 end C12Pool
